@@ -181,7 +181,7 @@ def replay_obj(case, what):
 
 def run(ctx):
     quick = ctx.tier == "quick"
-    nf, nw = (700, 300) if quick else (20000, 6000)
+    nf, nw = (550, 250) if quick else (20000, 6000)
     ctx.assumptions += [
         "model: Resolve as a type table (arena index = TypeId; per type: named?, TypeDefKind with field/case/flag names), world items in order; HashMaps as association lists; recursion on explicit fuel with every panic site an explicit error (proved unreachable on well-founded tables)",
         "well-founded table (every definition mentions smaller ids only, no Unknown) is a hypothesis of the theorems; the harness checks it on every real Resolve, together with the post-order of the real LiveTypes",
